@@ -612,9 +612,68 @@ func (c *provCtx) walk(v ssa.Value, idx int) {
 			return
 		}
 		c.emit(v, idx)
+	case *ssa.Parameter:
+		if b, ok := paramEnv[x]; ok {
+			c.walk(b, idx)
+			return
+		}
+		c.emit(v, idx)
 	default:
 		c.emit(v, idx)
 	}
+}
+
+// paramEnv binds the parameters of a callee to the caller's arguments while a wrapper call is being expanded
+// (interprocedural provenance, depth bound 2). The analysis is single-threaded.
+var paramEnv = map[*ssa.Parameter]ssa.Value{}
+var expandDepth = 0
+
+// expandCall: when an origin is the result of a call to a small repository function (a wrapper/helper), its origins
+// are those of the callee's returned values with the callee's parameters bound to the call's arguments.
+func expandCall(o Origin) ([]Origin, func(), bool) {
+	call := asCall(o.V)
+	if call == nil || expandDepth >= 2 {
+		return nil, nil, false
+	}
+	callee := call.Call.StaticCallee()
+	if callee == nil || callee.Blocks == nil || !isRepoPath(fnPkgPath(callee)) || len(callee.Blocks) > 12 {
+		return nil, nil, false
+	}
+	if len(call.Call.Args) != len(callee.Params) {
+		return nil, nil, false
+	}
+	saved := paramEnv
+	env := map[*ssa.Parameter]ssa.Value{}
+	for k, v := range saved {
+		env[k] = v
+	}
+	for i, p := range callee.Params {
+		env[p] = call.Call.Args[i]
+	}
+	paramEnv = env
+	expandDepth++
+	restore := func() { paramEnv = saved; expandDepth-- }
+	idx := o.Index
+	if idx < 0 {
+		idx = 0
+	}
+	var out []Origin
+	for _, r := range returnsOf(callee) {
+		if isRecoverReturn(r) {
+			continue
+		}
+		v := resOf(r, idx)
+		if v == nil {
+			restore()
+			return nil, nil, false
+		}
+		out = append(out, originsOf(v)...)
+	}
+	if len(out) == 0 {
+		restore()
+		return nil, nil, false
+	}
+	return out, restore, true
 }
 
 // freeVarBinding returns the value bound to a free variable at the (unique) MakeClosure of its function.
@@ -712,6 +771,27 @@ func allOrigins(v ssa.Value, preds ...OPred) (bool, *Origin) {
 			}
 		}
 		if !ok {
+			// a wrapper/helper of the repository: look through it
+			if sub, restore, can := expandCall(os[i]); can {
+				all := true
+				for j := range sub {
+					okj := false
+					for _, p := range preds {
+						if p(sub[j]) {
+							okj = true
+							break
+						}
+					}
+					if !okj {
+						all = false
+						break
+					}
+				}
+				restore()
+				if all {
+					continue
+				}
+			}
 			return false, &os[i]
 		}
 	}
